@@ -242,6 +242,24 @@ def execute(inp):
     return coq, obs, {"failed": nfail, "views": len(sh.views)}
 
 
+def lazy_disagreement(inp, eager_obs):
+    """model-free: the same history run with NOTHING observed (no root, no encoding asked) until the end must leave every
+    held view with the root and encoding the step-by-step run ended with — shortcuts that depend on whether a node has
+    been hashed yet only show this way.  eager_obs = the observation list of execute(inp)."""
+    try:
+        sh = Shadow(inp["t"], inp["v"])
+        for c0 in inp["cmds"]:
+            for c, th in expand(sh, c0):
+                attempt(th, anyerr=True)
+        final = ob_norm(sh.observe())
+        want = ob_norm(eager_obs[-1][1] if len(eager_obs) > 1 else eager_obs[0])
+        if final != want:
+            return "the history run without any observation in between ends with other roots / encodings than the step-by-step run"
+    except Exception as e:  # noqa
+        return "the history could not be replayed without observations: %r" % (e,)
+    return None
+
+
 # ----------------------------------------------------------------------------- generation
 def gen_arg(rng, e, valid=True):
     if e is None:
